@@ -178,6 +178,7 @@ type c07Live struct {
 	Alloc     apiext.DeviceAllocations
 	Flat      c07Flat         // type/minor/resource -> amount held
 	Requested map[string]bool // type/resource names that were part of the per-device request (the others were derived by fillGPUTotalMem)
+	Done      *corev1.Pod     // the pod object as last delivered in a terminal phase (Succeeded/Failed); holds nothing from then on
 	Dup       bool            // a duplicate event was delivered while live
 	Refreshed bool            // an inventory refresh happened while live
 }
@@ -980,6 +981,8 @@ func TestVerifC07History(t *testing.T) {
 		dead := false
 		capacityHolds := true
 		var released []*c07Live
+		var completed []*c07Live // pods that reached a terminal phase and whose object still exists (not yet deleted)
+		var sawCompletedUpdate, sawTerminatedAdd bool
 		var sawShare, sawMulti, sawUnhealthy, sawLossUnderPods, sawRefused, sawSuccess, sawDup, sawTwice, sawChanged, sawDeleted bool
 		var ntDupThenRelease, ntRefreshBetween bool
 		for _, d := range w.inv {
@@ -1157,15 +1160,17 @@ func TestVerifC07History(t *testing.T) {
 					t.Skip("no live pod")
 				}
 				p := w.live[rapid.SampledFrom(w.liveNames()).Draw(t, "pod")]
-				switch rapid.IntRange(0, 3).Draw(t, "releaseVia") {
+				switch rapid.IntRange(0, 4).Draw(t, "releaseVia") {
 				case 0:
 					w.cache.onPodDelete(p.Bound)
 					note("podDelete " + p.Name)
-				case 1:
+				case 1, 4:
 					done := p.Bound.DeepCopy()
 					done.Status.Phase = rapid.SampledFrom([]corev1.PodPhase{corev1.PodSucceeded, corev1.PodFailed}).Draw(t, "phase")
 					w.cache.onPodUpdate(p.Bound, done)
-					note("podUpdate terminated " + p.Name)
+					p.Done = done
+					completed = append(completed, p)
+					note(fmt.Sprintf("podUpdate running->%s %s", done.Status.Phase, p.Name))
 				case 2: // another scheduler un-assigned the pod
 					un := p.Bound.DeepCopy()
 					un.Spec.NodeName = ""
@@ -1187,6 +1192,66 @@ func TestVerifC07History(t *testing.T) {
 					ntRefreshBetween = true
 				}
 			},
+			// events for a pod that already completed: the object stays in the API server until it is deleted and keeps being
+			// updated (status, labels, resync) and re-listed; it holds nothing from its first terminal event on
+			"completedPodEvent": func(t *rapid.T) {
+				if dead {
+					return
+				}
+				kind := rapid.IntRange(0, 4).Draw(t, "completedKind")
+				if kind == 4 || len(completed) == 0 {
+					// a pod that is already terminated when first seen (re-list after a scheduler restart); its annotation carries
+					// an allocation that is valid for the node right now, but nothing may be charged for it
+					name := fmt.Sprintf("p%d", w.nextPod)
+					w.nextPod++
+					p, abandon := allocate(t, name)
+					if abandon {
+						dead = true
+						return
+					}
+					if p == nil {
+						return
+					}
+					done := p.Bound.DeepCopy()
+					done.Status.Phase = rapid.SampledFrom([]corev1.PodPhase{corev1.PodSucceeded, corev1.PodFailed}).Draw(t, "phase")
+					p.Done = done
+					w.cache.onPodAdd(done)
+					completed = append(completed, p)
+					released = append(released, p)
+					sawTerminatedAdd = true
+					note(fmt.Sprintf("podAdd of already %s %s (nothing committed)", done.Status.Phase, name))
+					if !rapid.Bool().Draw(t, "thenUpdate") {
+						return
+					}
+					kind = rapid.IntRange(0, 2).Draw(t, "followUpKind")
+				}
+				p := completed[rapid.IntRange(0, len(completed)-1).Draw(t, "completedPod")]
+				next := p.Done.DeepCopy()
+				switch kind {
+				case 0: // resync: nothing changed
+					note("podUpdate completed->completed unchanged " + p.Name)
+				case 1: // metadata / status detail changed
+					if next.Labels == nil {
+						next.Labels = map[string]string{}
+					}
+					next.Labels["c07/touched"] = fmt.Sprint(len(hist))
+					next.ResourceVersion = fmt.Sprint(len(hist))
+					next.Status.Message = "touched"
+					note("podUpdate completed->completed labels+status changed " + p.Name)
+				case 2: // container statuses / conditions filled in later by the kubelet
+					next.Status.Conditions = append(next.Status.Conditions, corev1.PodCondition{Type: corev1.PodReady, Status: corev1.ConditionFalse, Reason: "PodCompleted"})
+					note("podUpdate completed->completed condition added " + p.Name)
+				default: // re-list delivers the completed pod as an add
+					w.cache.onPodAdd(next)
+					p.Done = next
+					sawTerminatedAdd = true
+					note("podAdd again of completed " + p.Name)
+					return
+				}
+				w.cache.onPodUpdate(p.Done, next)
+				p.Done = next
+				sawCompletedUpdate = true
+			},
 			"releaseAgain": func(t *rapid.T) {
 				if dead {
 					return
@@ -1202,7 +1267,17 @@ func TestVerifC07History(t *testing.T) {
 				}
 				p := cands[rapid.IntRange(0, len(cands)-1).Draw(t, "pod")]
 				if rapid.Bool().Draw(t, "viaInformer") {
-					w.cache.onPodDelete(p.Bound)
+					last := p.Bound
+					if p.Done != nil {
+						last = p.Done
+					}
+					w.cache.onPodDelete(last)
+					for i, q := range completed { // the object is gone: no further events for it
+						if q == p {
+							completed = append(append([]*c07Live{}, completed[:i]...), completed[i+1:]...)
+							break
+						}
+					}
 					note("podDelete again " + p.Name)
 				} else {
 					nd := w.cache.getNodeDevice(c07Node, false)
@@ -1355,6 +1430,8 @@ func TestVerifC07History(t *testing.T) {
 		c.ClassIf(sawTwice, "release-twice")
 		c.ClassIf(sawChanged, "allocation-changed-by-update")
 		c.ClassIf(sawDeleted, "device-cr-deleted")
+		c.ClassIf(sawCompletedUpdate, "update-of-already-completed-pod")
+		c.ClassIf(sawTerminatedAdd, "add-of-already-terminated-pod")
 		c.ClassIf(ntDupThenRelease, "nt:duplicate-then-release")
 		c.ClassIf(ntRefreshBetween, "nt:refresh-between-allocate-and-release")
 		c.Class(fmt.Sprintf("memMode:%d", w.memMode))
